@@ -305,6 +305,49 @@ Definition snap_eqb (a b : snapshot) : bool :=
   && Nat.eqb (length (sn_files a)) (length (sn_files b))
   && forallb (fun p => existsb (path_eqb p) (sn_files b)) (sn_files a).
 
+(* a call through a stale handle that is not an Add: it must leave the directory
+   exactly as it was (these paths do not reload), and return as follows *)
+Definition add_like (o : apiop) : bool :=
+  match o with AAdd _ _ | AAddEmpty | AAddBad => true | _ => false end.
+Definition stale_quiet (o : apiop) : option (apires -> bool) :=
+  match o with
+  | ACompactAll | AExpire | ACompact _ _ => Some (fun r => match r with ROk => true | _ => false end)
+  | AClean | AAddMulti _ _ => Some (fun r => match r with RLockFailure => true | _ => false end)
+  | _ => None
+  end.
+
+(* the clause of one call; [cmp after before] = "the directory is left unchanged" for an Add (which reloads) *)
+Definition c09_call_ok (cmp : snapshot -> snapshot -> bool) (cur : snapshot) (mems : list (nat * list nat))
+    (h : nat) (o : apiop) (t : list event) : bool :=
+  let held := fold_right (fun x acc => if Nat.eqb h (fst x) then Some (snd x) else acc) None mems in
+  match held, alone_until_ret h t [] with
+  | Some names, Some (evs, r, rest) =>
+      if negb (list_nat_eqb names (listed cur)) then
+        if add_like o then
+          (* stale and undisturbed Add: lock failure, directory unchanged, handle refreshed *)
+          (match r with RLockFailure => true | _ => false end)
+          && cmp (last_snap evs cur) cur
+          && (match rest with
+              | EMem h' names' _ :: _ => Nat.eqb h h' && list_nat_eqb names' (listed cur)
+              | _ => false
+              end)
+        else
+          (* stale and undisturbed compaction, Clean, NewAddition: nothing happens *)
+          match stale_quiet o with
+          | Some okr => okr r && snap_eqb (last_snap evs cur) cur
+          | None => true
+          end
+      else
+        match o with
+        | AAdd _ _ =>
+            if existsb (path_eqb PLL) (sn_files cur) then true      (* somebody holds the write lock *)
+            else (* up to date, lock free, undisturbed: the Add commits *)
+              (match r with ROk => true | _ => false end)
+        | _ => true
+        end
+  | _, _ => true
+  end.
+
 Fixpoint c09_loop (cur : snapshot) (mems : list (nat * list nat)) (tr : list event) : bool :=
   match tr with
   | [] => true
@@ -312,23 +355,7 @@ Fixpoint c09_loop (cur : snapshot) (mems : list (nat * list nat)) (tr : list eve
   | EMem h names _ :: t => c09_loop cur ((h, names) :: filter (fun x => negb (Nat.eqb h (fst x))) mems) t
   | ERet h AClose _ :: t => c09_loop cur (filter (fun x => negb (Nat.eqb h (fst x))) mems) t
   | ERet h AOpen RErr :: t => c09_loop cur (filter (fun x => negb (Nat.eqb h (fst x))) mems) t
-  | ECall h (AAdd tx _) :: t =>
-      let held := fold_right (fun x acc => if Nat.eqb h (fst x) then Some (snd x) else acc) None mems in
-      (match held, alone_until_ret h t [] with
-       | Some names, Some (evs, r, rest) =>
-           if negb (list_nat_eqb names (listed cur)) then
-             (* stale and undisturbed: lock failure, directory unchanged, handle refreshed *)
-             (match r with RLockFailure => true | _ => false end)
-             && snap_eqb (last_snap evs cur) cur
-             && (match rest with
-                 | EMem h' names' _ :: _ => Nat.eqb h h' && list_nat_eqb names' (listed cur)
-                 | _ => false
-                 end)
-           else if existsb (path_eqb PLL) (sn_files cur) then true      (* somebody holds the write lock *)
-           else (* up to date, lock free, undisturbed: the Add commits *)
-             (match r with ROk => true | _ => false end)
-       | _, _ => true
-       end) && c09_loop cur mems t
+  | ECall h o :: t => c09_call_ok snap_eqb cur mems h o t && c09_loop cur mems t
   | _ :: t => c09_loop cur mems t
   end.
 Definition c09_ok (tr : list event) : bool := c09_loop snap0 [] tr.
@@ -354,23 +381,7 @@ Fixpoint c09_loop_gc (cur : snapshot) (mems : list (nat * list nat)) (tr : list 
   | EMem h names _ :: t => c09_loop_gc cur ((h, names) :: filter (fun x => negb (Nat.eqb h (fst x))) mems) t
   | ERet h AClose _ :: t => c09_loop_gc cur (filter (fun x => negb (Nat.eqb h (fst x))) mems) t
   | ERet h AOpen RErr :: t => c09_loop_gc cur (filter (fun x => negb (Nat.eqb h (fst x))) mems) t
-  | ECall h (AAdd tx _) :: t =>
-      let held := fold_right (fun x acc => if Nat.eqb h (fst x) then Some (snd x) else acc) None mems in
-      (match held, alone_until_ret h t [] with
-       | Some names, Some (evs, r, rest) =>
-           if negb (list_nat_eqb names (listed cur)) then
-             (* stale and undisturbed: lock failure, directory unchanged, handle refreshed *)
-             (match r with RLockFailure => true | _ => false end)
-             && snap_gc (last_snap evs cur) cur
-             && (match rest with
-                 | EMem h' names' _ :: _ => Nat.eqb h h' && list_nat_eqb names' (listed cur)
-                 | _ => false
-                 end)
-           else if existsb (path_eqb PLL) (sn_files cur) then true      (* somebody holds the write lock *)
-           else (* up to date, lock free, undisturbed: the Add commits *)
-             (match r with ROk => true | _ => false end)
-       | _, _ => true
-       end) && c09_loop_gc cur mems t
+  | ECall h o :: t => c09_call_ok snap_gc cur mems h o t && c09_loop_gc cur mems t
   | _ :: t => c09_loop_gc cur mems t
   end.
 Definition c09_ok_gc (tr : list event) : bool := c09_loop_gc snap0 [] tr.
